@@ -389,3 +389,22 @@ def item_once(R, comp, rule):
                     "an item that the flush already completed can be completed again (FutureIsAlreadyComputed inside the batch's completion)",
                     cfg.fmt_path(p) if p else None)
     R.need(cnt >= 1, "idiom: no item completion found in BatchBase._computed")
+    # the items are still there when the completion walks them: the list is emptied only after the batch is computed (i.e. after
+    # the call that computes it returned), never between the flush body and the completion
+    bb = comp.cls
+    for m in bb.methods.values():
+        mcfg = cfg_of(m)
+        clears = [n for n, c in kit.call_sites(m, lambda c: q.call_name(c) == "self.items.clear")]
+        clears += [n for n in mcfg.nodes if n.kind == "stmt" and isinstance(n.ast, (ast.Assign, ast.Delete)) and
+                   any(q.src(t) in ("self.items", "self.items[:]") for t in (n.ast.targets if hasattr(n.ast, "targets") else []))
+                   and m.name != "__init__"]
+        if not clears:
+            continue
+        done = [n for n, c in kit.call_sites(m, lambda c: q.call_name(c) in ("self.error", "self.value", "self._compute", "self"))]
+        if m.name == "_computed":
+            done += [kit.one(mcfg.nodes_for(lp), "loop header") for lp in loops]
+        p = mcfg.find_path([mcfg.entry], clears, N, cut_nodes=done)
+        R.check(p is None, rule, "%s:items-kept" % m.qualname, R.site(m),
+                "%s empties the item list only after the batch has been computed" % m.name,
+                "%s can empty self.items before the batch's completion has walked them: items the flush did not set are never completed "
+                "(no 'value not set' error, no on_computed), although their batch is flushed" % m.name, mcfg.fmt_path(p) if p else None)
